@@ -593,9 +593,10 @@ func runC15(r *Rng, n int, replay string) {
 		}
 		emit(c)
 	}
+	next := runC15Isolation(n)
 	// free-running stress: many goroutines, own handles, unrelated and shared paths (run under the race detector in the thorough tier)
 	for t := 0; t < 3; t++ {
-		c := &Case{ID: n + t, Kind: "stress"}
+		c := &Case{ID: next + t, Kind: "stress"}
 		fs := newMem()
 		c15Setup(fs)
 		var wg sync.WaitGroup
@@ -650,6 +651,165 @@ func runC15(r *Rng, n int, replay string) {
 		}
 		emit(c)
 	}
+}
+
+// ---- isolation probe: a writer is held INSIDE its store transaction (before its k-th Set), an observer runs meanwhile ----
+
+type pauseStore struct {
+	inner   keyvalue.TransactionStore
+	mu      sync.Mutex
+	armed   bool
+	sets    int
+	pauseAt int
+	hit     chan struct{}
+	release chan struct{}
+}
+
+func (p *pauseStore) Get(ctx context.Context, k string) (keyvalue.FileRecord, error) {
+	return p.inner.Get(ctx, k)
+}
+func (p *pauseStore) Set(ctx context.Context, k string, r keyvalue.FileRecord) error {
+	return p.inner.Set(ctx, k, r)
+}
+func (p *pauseStore) Transaction(o keyvalue.TransactionOptions) (keyvalue.Transaction, error) {
+	t, err := p.inner.Transaction(o)
+	if err != nil {
+		return nil, err
+	}
+	return &pauseTxn{t, p, o.Mode == keyvalue.TransactionReadWrite}, nil
+}
+
+type pauseTxn struct {
+	keyvalue.Transaction
+	p  *pauseStore
+	rw bool
+}
+
+func (t *pauseTxn) gate() {
+	if !t.rw {
+		return
+	}
+	t.p.mu.Lock()
+	if !t.p.armed {
+		t.p.mu.Unlock()
+		return
+	}
+	if t.p.sets < t.p.pauseAt {
+		t.p.sets++
+		t.p.mu.Unlock()
+		return
+	}
+	t.p.armed = false
+	t.p.mu.Unlock()
+	close(t.p.hit)
+	select {
+	case <-t.p.release:
+	case <-time.After(10 * time.Second):
+	}
+}
+func (t *pauseTxn) Set(k string, r keyvalue.FileRecord, b blob.Blob) keyvalue.OpID {
+	t.gate()
+	return t.Transaction.Set(k, r, b)
+}
+func (t *pauseTxn) SetHandler(k string, r keyvalue.FileRecord, b blob.Blob, h keyvalue.OpHandler) keyvalue.OpID {
+	t.gate()
+	return t.Transaction.SetHandler(k, r, b, h)
+}
+
+// runC15Isolation: the writer's operation is stopped inside its store transaction; whatever the observer then
+// reports (at once, or after waiting for the writer) and the final tree must be an outcome of running the two
+// programs in one of the two orders.  The in-memory store serialises transactions with one mutex: an observer
+// that gets through while the writer's transaction is open can see one of its two Sets without the other.
+func runC15Isolation(firstID int) int {
+	writers := []Op{{Kind: "rename", P: "f", Q: "x"}, {Kind: "rename", P: "e/g", Q: "d/y"}}
+	observers := [][]Op{
+		{{Kind: "stat", P: "@new"}, {Kind: "stat", P: "@old"}},
+		{{Kind: "stat", P: "@old"}, {Kind: "stat", P: "@new"}},
+		{{Kind: "readfile", P: "@new"}, {Kind: "readfile", P: "@old"}},
+		{{Kind: "remove", P: "@old"}},
+		{{Kind: "stat", P: "@new"}, {Kind: "remove", P: "@old"}},
+		{{Kind: "readdir", P: "."}, {Kind: "readdir", P: "d"}},
+		{{Kind: "writefile", P: "@old", Data: []byte{9}, Perm: 0o644}},
+		{{Kind: "mkdir", P: "@new", Perm: 0o755}},
+	}
+	id := firstID
+	for _, wop := range writers {
+		for _, obs := range observers {
+			for pauseAt := 0; pauseAt < 2; pauseAt++ {
+				var bops []Op
+				for _, o := range obs {
+					o.P = strings.ReplaceAll(strings.ReplaceAll(o.P, "@new", wop.Q), "@old", wop.P)
+					bops = append(bops, o)
+				}
+				prog := cProg{{wop}, bops}
+				c := &Case{ID: id, Kind: "isolation", Trivial: true}
+				id++
+				c.Cells = []string{"isolation/" + bops[0].Kind}
+				ps := &pauseStore{inner: mem.NewStoreForVerif(), pauseAt: pauseAt, hit: make(chan struct{}), release: make(chan struct{})}
+				fs, err := keyvalue.NewFS(ps)
+				if err != nil {
+					panic(err)
+				}
+				c15Setup(fs)
+				ps.mu.Lock()
+				ps.armed = true
+				ps.mu.Unlock()
+				res := make([][]string, 2)
+				aDone, bDone := make(chan struct{}), make(chan struct{})
+				go func() {
+					defer close(aDone)
+					w := &World{FS: fs}
+					res[0] = append(res[0], obsShort(w.Apply(wop)))
+					w.CloseAll()
+				}()
+				during := false
+				select {
+				case <-ps.hit:
+					go func() {
+						defer close(bDone)
+						w := &World{FS: fs}
+						for _, o := range bops {
+							res[1] = append(res[1], obsShort(w.Apply(o)))
+						}
+						w.CloseAll()
+					}()
+					select {
+					case <-bDone:
+						during = true
+					case <-time.After(30 * time.Millisecond):
+					}
+					close(ps.release)
+				case <-aDone:
+					// the writer made fewer Sets than expected: nothing was held
+					close(bDone)
+				case <-time.After(5 * time.Second):
+					close(bDone)
+				}
+				hang := false
+				for _, ch := range []chan struct{}{aDone, bDone} {
+					select {
+					case <-ch:
+					case <-time.After(5 * time.Second):
+						hang = true
+					}
+				}
+				c.Text = []string{fmt.Sprintf("%s ; the writer is held inside its store transaction before Set #%d; observer finished meanwhile: %v", prog, pauseAt+1, during)}
+				if hang {
+					c.fail(c.Text[0]+": the programs did not finish", "isolation:hang")
+					emit(c)
+					continue
+				}
+				if len(res[1]) == len(bops) {
+					key := outcomeKey(res, snapText(Snapshot(fs, c15Cands)))
+					if !sequentialOutcomes(prog)[key] {
+						c.fail(fmt.Sprintf("%s: outcome %s is not the outcome of either order of the two programs", c.Text[0], key), "isolation:mid-transaction:"+bops[0].Kind)
+					}
+				}
+				emit(c)
+			}
+		}
+	}
+	return id
 }
 
 func uniq(s []string) []string {
